@@ -56,8 +56,12 @@ ASSUME = [
 HERE = os.path.dirname(os.path.abspath(__file__))
 STUB = os.path.join(HERE, "c17_noorjson")
 WORKER = os.path.join(HERE, "c17_worker.py")
-KWSETS = [{}, {"separators": (",", ":")}, {"indent": 2}]
-KWNAMES = ["default", "compact-separators", "indent2"]
+# keyword sets the library itself passes to fast_json.dumps: none (transports), the fallback back end's model_dump_json
+# (indent=None, separators, default=str - an EXPLICIT indent=None must stay compact), an explicit indent=None, and the one
+# pretty-printing call (server.py: indent=2), which is the only form allowed to span several lines
+KWSETS = [{}, {"separators": (",", ":")}, {"indent": None, "separators": (",", ":"), "default": str}, {"indent": None},
+          {"indent": 2}]
+KWNAMES = ["default", "compact-separators", "model-dump-json", "indent-none", "indent2"]
 BACKENDS = ["orjson", "stdlib"]
 INT_MIN, INT_MAX = -2 ** 63, 2 ** 64 - 1
 
